@@ -4,7 +4,7 @@ d=/verif/seeded/$1
 pid=${2:-$(echo $1 | cut -d_ -f1)}
 cd /repo || exit 9
 if ! git diff --quiet; then echo "repo dirty"; exit 9; fi
-if ! git apply --3way "$d/patch.diff" 2>/tmp/apply.err; then echo "PATCH DOES NOT APPLY: $(cat /tmp/apply.err | head -3)"; git checkout -q -- . ; exit 8; fi
+if ! git apply --3way "$d/patch.diff" 2>/tmp/apply.err; then echo "PATCH DOES NOT APPLY: $(cat /tmp/apply.err | head -3)"; git reset -q --hard HEAD; exit 8; fi
 git reset -q
 cd /verif && VERIF_OUT=/tmp/seed_out /venv/bin/python -m sa.check $pid --tier quick | grep -E "^VIOLATION|^  \[|ANALYSIS|violations=" | cut -c1-220
 rc=${PIPESTATUS[0]}
